@@ -60,6 +60,8 @@ Probe(e)     == [op |-> "print", v |-> 0, ty |-> e]     \* o(e + 100)   e in m |
 PrintX       == [op |-> "printx", v |-> 0, ty |-> ""]   \* o(x)
 Boom(e)      == [op |-> "boom", v |-> 0, ty |-> e]      \* o(e + try boom())  e in x | one : throws with an operand pushed
 Fail         == [op |-> "fail", v |-> 0, ty |-> ""]     \* o(1 + "a"): a type error
+DefU(v)      == [op |-> "defu", v |-> v, ty |-> ""]     \* module Foo; def bar: Int then v; end; using Foo::bar  (a method import)
+DefP(v)      == [op |-> "defp", v |-> v, ty |-> ""]     \* class P; val @x: Int; init(@x); end; def x: Int then @x; end
 
 Atoms(i) ==
   CASE i = "dm1" -> <<DefM(1, "Int")>>
@@ -76,20 +78,26 @@ Atoms(i) ==
     [] i = "bad_class" -> <<DefC(9), Fail>>            \* class A; def f: Int then "oops"; end
     [] i = "bad_mix"   -> <<DefC(9), DefM(9, "Int"), Const(9), Let("Int", 9), Fail>>
     [] i = "bad_types" -> <<DefM(0, "String"), Let("String", 0), Fail>>
+    [] i = "us" -> <<DefU(3)>>                         \* accepted; the import must survive later rejected inputs
+    [] i = "dv" -> <<DefP(5)>>                         \* accepted; @x stays single-assignment for ever
+    [] i = "bad_valset" -> <<Fail>>                    \* class P; def set(v: Int) then @x = v; end: rejected whether or not
+                                                       \* P exists (reassigns a `val` / uses an undeclared ivar)
+    [] i = "pu" -> <<Probe("u")>>
+    [] i = "pp" -> <<Probe("p")>>
     [] i = "pm" -> <<Probe("m")>>                      \* the probes: rejected iff the name is undefined
     [] i = "pa" -> <<Probe("a")>>
     [] i = "pk" -> <<Probe("k")>>
     [] i = "px" -> <<Probe("x")>>
-Probes == <<"pm", "pa", "pk", "px">>
+Probes == <<"pm", "pa", "pk", "px", "pu", "pp">>
 
-CK0 == [m |-> "none", a |-> "none", k |-> "none", x |-> "none"]
-RT0 == [m |-> 0, a |-> 0, k |-> 0, x |-> [def |-> FALSE, v |-> 0]]
+CK0 == [m |-> "none", a |-> "none", k |-> "none", x |-> "none", u |-> "none", p |-> "none"]
+RT0 == [m |-> 0, a |-> 0, k |-> 0, x |-> [def |-> FALSE, v |-> 0], u |-> 0, p |-> 0]
 
 (* The checker on one atom: does it type check in environment c, and the   *)
 (* environment afterwards (mutated also when a LATER atom fails).          *)
 CheckOK(c, at) ==
   CASE at.op \in {"defm", "sigm"} -> c.m \in {"none", at.ty}     \* else: not a valid override
-    [] at.op = "defc"   -> TRUE
+    [] at.op \in {"defc", "defu", "defp"} -> TRUE
     [] at.op = "const"  -> c.k = "none"                          \* else: cannot redeclare constant
     [] at.op = "let"    -> c.x \in {"none", at.ty}               \* else: cannot be assigned to type
     [] at.op \in {"inc", "printx"} -> c.x = "Int"
@@ -99,15 +107,19 @@ CheckOK(c, at) ==
 CheckEff(c, at) ==
   CASE at.op \in {"defm", "sigm"} -> [c EXCEPT !.m = at.ty]
     [] at.op = "defc"   -> [c EXCEPT !.a = "def"]
+    [] at.op = "defu"   -> [c EXCEPT !.u = "def"]
+    [] at.op = "defp"   -> [c EXCEPT !.p = "def"]
     [] at.op = "const"  -> [c EXCEPT !.k = "Int"]
     [] at.op = "let"    -> [c EXCEPT !.x = at.ty]
     [] OTHER            -> c
 
 (* The VM on one atom: new runtime state, lines printed, thrown?           *)
-Val(r, e) == CASE e = "m" -> r.m [] e = "a" -> r.a [] e = "k" -> r.k [] e = "x" -> r.x.v
+Val(r, e) == CASE e = "m" -> r.m [] e = "a" -> r.a [] e = "k" -> r.k [] e = "x" -> r.x.v [] e = "u" -> r.u [] e = "p" -> r.p
 Exec(r, at) ==
   CASE at.op = "defm"  -> [r |-> [r EXCEPT !.m = at.v], o |-> <<>>, thrown |-> FALSE]
     [] at.op = "defc"  -> [r |-> [r EXCEPT !.a = at.v], o |-> <<>>, thrown |-> FALSE]
+    [] at.op = "defu"  -> [r |-> [r EXCEPT !.u = at.v], o |-> <<>>, thrown |-> FALSE]
+    [] at.op = "defp"  -> [r |-> [r EXCEPT !.p = at.v], o |-> <<>>, thrown |-> FALSE]
     [] at.op = "const" -> [r |-> [r EXCEPT !.k = at.v], o |-> <<>>, thrown |-> FALSE]
     [] at.op = "let"   -> [r |-> [r EXCEPT !.x = [def |-> TRUE, v |-> at.v]], o |-> <<>>, thrown |-> FALSE]
     [] at.op = "inc"   -> [r |-> [r EXCEPT !.x.v = @ + 1], o |-> <<>>, thrown |-> FALSE]
@@ -212,6 +224,7 @@ SessionIsBatch ==
 CheckerAgreesWithRuntime ==
   AtRest => /\ (ck.m = "none") = (rt.m = 0) /\ (ck.a = "none") = (rt.a = 0)
             /\ (ck.k = "none") = (rt.k = 0) /\ (ck.x = "none") = ~rt.x.def
+            /\ (ck.u = "none") = (rt.u = 0) /\ (ck.p = "none") = (rt.p = 0)
 
 TypeOK == /\ phase \in {"idle", "checking", "failed", "running", "thrown"}
           /\ Len(hist) <= MaxLen /\ Len(acc) <= Len(hist)
